@@ -2,6 +2,7 @@ package verifsim
 
 import (
 	"bytes"
+	"errors"
 	"context"
 	"fmt"
 	"math/rand/v2"
@@ -28,6 +29,9 @@ type C20Params struct {
 	// LongEpoch: before the workload each side's record number is advanced past 2^16 in three
 	// steps of 30000 (as if that many records had been lost), one delivered record after each step
 	LongEpoch bool `json:"long_epoch,omitempty"`
+	// TickMs: if set, one more writer per side keeps writing every TickMs milliseconds for as long
+	// as updates are in progress (an application that never pauses longer than that)
+	TickMs int `json:"tick_ms,omitempty"`
 }
 
 func c20Counts(tier string) (int, int) {
@@ -43,6 +47,9 @@ func c20Gen(r *rand.Rand, tier string, idx int) any {
 	p := &C20Params{Cfg: cfgs[r.IntN(3)], UpdatesC: r.IntN(5), UpdatesS: r.IntN(5), Updaters: 1 + r.IntN(2), Request: r.IntN(3),
 		WritersC: 1 + r.IntN(3), WritersS: 1 + r.IntN(3), PerWriter: 1 + r.IntN(5), ParkPm: []int{0, 0, 200, 500}[r.IntN(4)],
 		Replay: []int{0, 0, 4, 12}[r.IntN(4)], ForgeNext: r.IntN(2) == 0, LongEpoch: r.IntN(3) == 0}
+	if r.IntN(3) == 0 {
+		p.TickMs = []int{5, 20, 100, 400}[r.IntN(4)]
+	}
 	if r.IntN(3) != 0 {
 		p.Rules = NetRules{DropPm: 30 + r.IntN(250), DupPm: r.IntN(150), HoldPm: r.IntN(150), FaultsUntilNs: int64(time.Second) * int64(1+r.IntN(20)),
 			HoldMaxNs: int64(time.Millisecond) * int64(10+r.IntN(2500))}
@@ -175,8 +182,35 @@ func c20Run(rc *RunCtx, params any) {
 			})
 		}
 	}
+	tickStop := false
+	if p.TickMs > 0 {
+		for _, ep := range []string{"c", "s"} {
+			ep := ep
+			conn := pair.ConnOf(ep)
+			s.Go(ep+"-ticker", func() {
+				for k := 0; !tickStop && k < 4000; k++ {
+					pl := Payload(ep, 8, k, 16)
+					written[ep] = append(written[ep], pl)
+					if _, err := conn.Write(pl); err != nil {
+						return
+					}
+					s.Sleep(time.Duration(p.TickMs) * time.Millisecond)
+				}
+			})
+		}
+	}
 	s.Run(func() bool { return live == 0 }, 8*time.Minute)
+	tickStop = true
 	stuck := live != 0
+	for _, u := range upds {
+		// the link is reliable at the latest 20 s after the workload began: an update that has not
+		// been acknowledged three minutes after it was requested is not going to be
+		if u.done && u.err != nil && (errors.Is(u.err, context.DeadlineExceeded) || contains(u.err.Error(), "deadline")) {
+			rc.Violate("update-never-completed", "%s: UpdateKeys gave up after three minutes on a link that had been reliable for more than two of them (writers ticking every %d ms): %v", u.ep, p.TickMs, u.err)
+
+			return
+		}
+	}
 	n.MakeReliable()
 	s.Policy.Active = false
 	s.Run(func() bool { return false }, 5*time.Second)
